@@ -438,11 +438,16 @@ def array(obj, dtype=None, **k):
         return a.view(SymNd)
     if isinstance(obj, (list, tuple)) and _has_sym(obj):
         OVERRIDES_USED.add("array")
-        parts = [array(o) if isinstance(o, (list, tuple, XF, SI, SB)) else real_np.asarray(o, dtype=object) for o in obj]
-        shp = parts[0].shape
+        parts = [array(o) if isinstance(o, (list, tuple)) else (o if isinstance(o, (XF, SI, SB)) else real_np.asarray(o, dtype=object)) for o in obj]
+        shp = parts[0].shape if isinstance(parts[0], real_np.ndarray) else ()
         out = real_np.empty((len(parts),) + shp, dtype=object)
         for i, p in enumerate(parts):
-            out[i] = p
+            if isinstance(p, real_np.ndarray) and p.ndim == 0:
+                p = p[()]
+            if shp == ():
+                out[i] = p
+            else:
+                out[i, ...] = p
         return out.view(SymNd)
     if is_obj(obj):
         if dtype is not None:
@@ -477,6 +482,8 @@ def concatenate(arrs, axis=0, **k):
 def argsort(a, axis=-1, kind=None, **k):
     if is_obj(a):
         OVERRIDES_USED.add("argsort")
+        if axis is None:
+            a = a.reshape(-1)
         if a.ndim != 1:
             raise EngineGap("argsort on symbolic nd array")
         xs = [XF.of(x) for x in a]
@@ -523,7 +530,9 @@ def searchsorted(a, v, side="left", **k):
 
 
 def unravel_index(i, shape, **k):
-    return real_np.unravel_index(int(i), shape, **k)
+    if isinstance(i, (SI, XF)):
+        i = int(i)
+    return real_np.unravel_index(i, shape, **k)
 
 
 def norm(a, axis=None, ord=None, keepdims=False):
